@@ -26,6 +26,7 @@ def run(chk):
                        'order of floating-point summation. Permutation, translation and cross=auto invariance are numerical identities '
                        'of the pipeline and are NOT decided here.')
     chk.rule('C13-R1', 'no dependence path from the values or lengths of pos, w, pos2, w2 to N_mode / N_mode_poles / k_* / mu_* / table shape', 8)
+    chk.rule('C13-R3', 'the particle arrays are not modified in place on the calc_power path, except by the idempotent periodic wrap (needed for cross == auto with the same array, and for repeated calls)', 4)
     chk.rule('C13-R2', 'kernels on the calc_power path: every store under prange is iteration-, thread- or cursor-private', 8)
     chk.assume('termination-insensitive: a raise/assert that depends on the particles is not counted as a dependence of the outputs')
     chk.assume('library calls (rfftn, numpy) are modelled as: result values and shape depend on the values and shapes of all arguments')
@@ -85,6 +86,16 @@ def run(chk):
     pv = res.keys.get('power')
     chk.check(pv is not None and 'p:pos' in pv.V and 'p:w' in pv.V, 'C13-R1', PS, 'calc_power', 'control: power does depend on pos and w (flow is tracked end to end)', '',
               'the dependence analysis no longer sees pos/w reaching the power column: its independence verdicts would be vacuous', node=fn, nontrivial=False)
+    # ---- R3 in-place modification of the inputs
+    allowed = {(TSC, '_wrap_inplace')}
+    for p in SOURCES:
+        sites = s.sites.get(p, set())
+        bad = sorted(x for x in sites if (x[0], x[1]) not in allowed)
+        chk.check(not bad, 'C13-R3', PS, 'calc_power', f'argument {p} is only modified by the periodic wrap',
+                  f'{len(sites)} in-place store site(s): {sorted({(x[1]) for x in sites})}',
+                  f'{p} is modified in place by ' + '; '.join(f'{x[1]} ({x[0].split("/")[-1]}:{x[2]}): {x[3]}' for x in bad[:3]) +
+                  ': a second use of the same array (pos2 is pos, interlacing\'s second painting, a repeated call) sees shifted particles, so cross != auto',
+                  node=fn, nf=sorted(f'{x[1]}:{x[3]}' for x in sites))
     # ---- R2
     for rel, q in PARALLEL:
         fnq = src.func(rel, q)
